@@ -30,7 +30,21 @@ PLAN = dict(
          "one process: every ordered pair (A,B) of the 12 traffic classes {SM2, P-256, P-224, P-384, P-521 keys, direct sm3.Kdf} x "
          "{4-7, 8+ KDF blocks} as A B A B with encryption and decryption alternating, and random histories of 40-60 steps "
          "(encryptions, decryptions through all entry points, converters, KDF and hash calls of other input lengths) over two SM2 "
-         "key objects and 2-3 other curves in random order. "
+         "key objects and 2-3 other curves in random order; "
+         "der: one case = one valid ASN.1 ciphertext (curve x {C1 from a random k, from the shape table, with x1 < 2^bits - p, inside "
+         "an enveloped key}) x one family of structured re-encodings with consistent lengths (negative: -x1, -y1, x1-p, x1-2^w, "
+         "dropped / ff sign octet; lifted: +p, +2p, +2^w; padded INTEGERs; each of the five lengths in the 1..5-octet long forms; "
+         "extra element of six kinds at four positions; trailing bytes; 6-7 other tags per element incl. high-tag-number form; all "
+         "23 other element orders; indefinite lengths; constructed / nested forms; other widths of x1, y1, C3, C2), every mutant "
+         "through the 5 decryption entry points, 7 converter calls (SM2 curve) and ParseEnvelopedPrivateKey (as symEncryptedKey); "
+         "long: message lengths 8160, 8161, 8199, 8289, 12000, 16417, 16550, 65537, 65700 on the SM2 curve (255..2054 KDF blocks, "
+         "block count = 0, 1, 2, 4, 6, 7 mod 8) and one or two of them on P-224/P-256/P-384/P-521 (other KDF input lengths), thorough 32 "
+         "lengths up to 2 MiB (counter octet three; 64-bit builds), 3-5 encryption variants byte-equal to the reference, 3-7 decryptions "
+         "of the reference ciphertext, C2 bits flipped behind block 255, two converters; buffers: one case = curve x arena shape "
+         "(9: spare capacity 0, 1, 31, 32, 33, mlen, mlen+32, 2len+64 x capacity ending at the argument / behind the spare zone / at "
+         "the end of the arena) x message length, every entry point (9 encryption variants, 5 serialisations x 5 decryption entry "
+         "points, every converter call from every layout, ParseEnvelopedPrivateKey / MarshalEnvelopedPrivateKey) with its byte-slice "
+         "argument inside the arena. "
          "distinct = distinct class keys (configuration | curve / length class / content / key kind / k kind, resp. serialisation, "
          "chain start, family, pair of uses / constructor / shape of the history, pair of traffic classes); the empty-message and "
          "panic-monitor-only cases are trivial",
@@ -44,6 +58,9 @@ PLAN = dict(
         + both("c07.keyobj", _CFG, shards=(1, 6), floor=150) + [J("c07.keyobj", ["ia32"], "ia32", (2, 6), floor=150)]
         + both("c07.mixed", _CFG + ["sse"], shards=(2, 8), floor=150)
         + [dict(J("c07.mixed", ["ia32"], "ia32", (4, 12), floor=150), thorough_only=True)]  # 32-bit build: one-at-a-time KDF only
+        + both("c07.der", ["avx2", "purego", "ia32"], shards=(1, 4), floor=150)
+        + both("c07.long", _CFG + ["sse", "ia32"], shards=(1, 3), floor=10)
+        + both("c07.buffers", ["avx2", "purego", "ia32"], shards=(1, 3), floor=60)
         + [J("c07.curves", ["avx2"], "asm", (3, 8), floor=90)]
         + [dict(J("c07.curves", ["purego"], "purego", (3, 8), floor=90), thorough_only=True)]),  # crypto/elliptic carries the path
     assumptions=[
@@ -55,7 +72,13 @@ PLAN = dict(
         "a call that returns an error changes nothing; assigning to exported fields of a live object is not a way of re-keying",
         "the shape table (harness/wl/c07/shapes.go) was found by an offline search with the library's own scalar multiplication; "
         "it is only a list of candidates: every entry is recomputed with the reference arithmetic before use",
-        "a decoder may refuse or take hybrid (06/07) C1 encodings and BER variants of the ASN.1 layout; only 04 / 02 / 03 and DER are demanded",
+        "a decoder may refuse or take hybrid (06/07) C1 encodings; only 04 / 02 / 03 and DER are demanded. For the ASN.1 layout the "
+        "accept-set of c07.der is the canonical DER encoding alone (the property: every other byte string gives an error), after it "
+        "was confirmed that the pinned library refuses every family generated there; the older workloads (hostile, tamper) keep counting "
+        "a right plaintext from a tolerantly read BER variant instead of judging it",
+        "the converters have no key: what is asked of their input is canonical structure and C1 on the curve; that they carry a C3 of "
+        "another size (which decryption then refuses) is recorded, not judged; AdjustCiphertextSplicingOrder with from == to returns "
+        "its argument itself by design (counted)",
     ],
 )
 
@@ -80,6 +103,15 @@ CLAIM = dict(
          "classes of KDF input and output length, encryption, decryption, converters, direct KDF and hash calls interleaved and "
          "executed back to back with long-lived option objects and caller buffers that must come back unchanged; every ordered "
          "pair of multi-lane KDF traffic classes in every SM3 dispatch tier), each step judged by the reference as above. "
+         "ASN.1 accept-set: structured re-encodings of valid ASN.1 ciphertexts with consistent lengths (negative and lifted "
+         "coordinates, padded INTEGERs, long-form and indefinite lengths, extra elements, trailing bytes, other tags, element order, "
+         "constructed forms) must be refused by every decryption entry point, by the converters and by ParseEnvelopedPrivateKey: only "
+         "the canonical DER encoding of a ciphertext that the reference opens gives a plaintext. Long messages (8160 bytes to 64 KiB, "
+         "thorough 2 MiB: KDF counters beyond one and two octets, every remainder of the 8- and 4-lane batches) are compared with the "
+         "reference in both directions in every dispatch configuration including SSE and the 32-bit build. Caller memory: every "
+         "byte-slice argument of every entry point lies in an arena with canary-filled spare capacity and neighbour data; the arena "
+         "is unchanged after the call (argument not modified, nothing appended in place behind it), results do not change when the "
+         "caller reuses the buffer or during later calls, key objects keep their values. "
          "Exploration over keys, scalars, message contents and history shapes; the listed lengths, layouts, option combinations, "
          "converter chains to depth 3, pairs of uses, pairs of traffic classes and single-byte mutants of the sampled ciphertexts "
          "are enumerated completely.",
@@ -87,6 +119,6 @@ CLAIM = dict(
     note="trusted: harness/ref/sm2enc, ref/ec, ref/sm3, ref/sm4 (envelope), crypto/elliptic P-224/P-256/P-384/P-521, math/big; message "
          "contents, keys, scalars beyond the structured kinds and the random histories are sampled; a failing random source is C12's, "
          "first use from several goroutines C20's",
-    technique="differential reference monitor with chosen ephemeral scalar + accept-set monitor over mutants + history (object and "
-              "process) monitor + panic monitor",
+    technique="differential reference monitor with chosen ephemeral scalar + accept-set monitor over byte and structure-aware DER mutants "
+              "+ history (object and process) monitor + caller-memory (arena / canary) monitor + panic monitor",
 )
